@@ -280,29 +280,42 @@ theorem intval_readInt (v : Bytes) (x : Int) (h : readInt v = some x) : intval v
     exact ⟨by decide, isNum_dashDigit d hd⟩
   · exact ⟨by rw [intval_num v hv, ex], hv.1, isNum_dashDigit v hv⟩
 
-theorem decLine_value (o : OutOracle) (ids k v : Bytes) (hid : IsNum ids)
-    (hk : k = asc "Enc" ∨ k = asc "Speed" ∨ k = asc "Abs" ∨ k = asc "Raw") (hne : v ≠ []) (hall : v.all isDashDigit = true) :
-    decLine repaired o (kHWC ++ (ids ++ 61 :: (k ++ 58 :: v))) = decEvent ids [] k v := by
-  have := matchCmd_plain kindsRepaired ids (k ++ 58 :: v) hid k (58 :: v) v (matchTail_value k v hk hne hall)
-  rw [List.append_assoc] at this
-  exact decLine_hwc repaired o _ _ this
+/-- the digits of an optional edge suffix (sub-match 3) -/
+def edgeDigits : Option Bytes → Bytes | none => [] | some e => e
 
-theorem decEvent_enc (ids v : Bytes) : decEvent ids [] (asc "Enc") v =
+/-- `HWC#id[.edge]=Kind:value` for the four value-carrying kinds: the event regex matches, sub-match 3 = the edge digits -/
+theorem decLine_value (o : OutOracle) (ids : Bytes) (eo : Option Bytes) (k v : Bytes) (hid : IsNum ids) (heo : EdgeOk eo)
+    (hk : k = asc "Enc" ∨ k = asc "Speed" ∨ k = asc "Abs" ∨ k = asc "Raw") (hne : v ≠ []) (hall : v.all isDashDigit = true) :
+    decLine repaired o (kHWC ++ (ids ++ edgeText eo ++ 61 :: (k ++ 58 :: v))) = decEvent ids (edgeDigits eo) k v := by
+  cases eo with
+  | none =>
+    have := matchCmd_plain kindsRepaired ids (k ++ 58 :: v) hid k (58 :: v) v (matchTail_value k v hk hne hall)
+    rw [List.append_assoc] at this
+    simp only [edgeText, List.append_nil, edgeDigits]
+    exact decLine_hwc repaired o _ _ this
+  | some e =>
+    have := matchCmd_edge kindsRepaired ids e (k ++ 58 :: v) hid heo.1 k (58 :: v) v (matchTail_value k v hk hne hall)
+    rw [List.append_assoc] at this
+    simp only [edgeText, edgeDigits, List.append_assoc, List.cons_append]
+    exact decLine_hwc repaired o _ _ this
+
+/-- the value-carrying kinds ignore the edge sub-match, whatever it is -/
+theorem decEvent_enc (ids e v : Bytes) : decEvent ids e (asc "Enc") v =
     some { events := [{ hwcid := u32 (intval ids), pulsed := some (i32 (intval v)) }] } := by
   unfold decEvent; simp only []
   rw [if_neg (by decide), if_neg (by decide)]
   first | exact if_pos rfl | exact if_pos trivial
-theorem decEvent_abs (ids v : Bytes) : decEvent ids [] (asc "Abs") v =
+theorem decEvent_abs (ids e v : Bytes) : decEvent ids e (asc "Abs") v =
     some { events := [{ hwcid := u32 (intval ids), absolute := some (u32 (intval v)) }] } := by
   unfold decEvent; simp only []
   rw [if_neg (by decide), if_neg (by decide), if_neg (by decide)]
   first | exact if_pos rfl | exact if_pos trivial
-theorem decEvent_speed (ids v : Bytes) : decEvent ids [] (asc "Speed") v =
+theorem decEvent_speed (ids e v : Bytes) : decEvent ids e (asc "Speed") v =
     some { events := [{ hwcid := u32 (intval ids), speed := some (i32 (intval v)) }] } := by
   unfold decEvent; simp only []
   rw [if_neg (by decide), if_neg (by decide), if_neg (by decide), if_neg (by decide)]
   first | exact if_pos rfl | exact if_pos trivial
-theorem decEvent_raw (ids v : Bytes) : decEvent ids [] (asc "Raw") v =
+theorem decEvent_raw (ids e v : Bytes) : decEvent ids e (asc "Raw") v =
     some { events := [{ hwcid := u32 (intval ids), rawAnalog := some (u32 (intval v)) }] } := by
   unfold decEvent; simp only []
   rw [if_neg (by decide), if_neg (by decide), if_neg (by decide), if_neg (by decide), if_neg (by decide)]
@@ -316,6 +329,9 @@ theorem dec_event (o : OutOracle) (rest : Bytes) (effs : List Effect) (h : readE
   split at h
   · rename_i lhs rhs hs
     obtain ⟨e, _, _⟩ := splitOn_eq_two 61 rest lhs rhs hs
+    by_cases hkw : kindOf rhs ∉ kindWords
+    · rw [if_pos hkw] at h; exact absurd h (by simp)
+    rw [if_neg hkw] at h
     cases hie : readIdEdge lhs with
     | none => rw [hie] at h; simp at h
     | some ie =>
@@ -356,75 +372,66 @@ theorem dec_event (o : OutOracle) (rest : Bytes) (effs : List Effect) (h : readE
         simp [eff_binEv]
       rw [if_neg hP] at h
       split at h
+      · rename_i k v hs2
+        obtain ⟨e2, _, _⟩ := splitOn_eq_two 58 rhs k v hs2
+        subst e2
+        cases hri : readInt v with
+        | none => rw [hri] at h; simp at h
+        | some x =>
+          rw [hri] at h
+          simp only [] at h
+          obtain ⟨eiv, hne, hall⟩ := intval_readInt v x hri
+          by_cases hE : k = asc "Enc"
+          · rw [if_pos hE] at h
+            split at h
+            · rename_i hr
+              simp only [LineClass.grammar.injEq] at h
+              subst hE
+              rw [hl, D_some o _ _ (by rw [decLine_value o ids eo _ v hid heo (Or.inl rfl) hne hall, decEvent_enc]),
+                eff_events, ← h, u32_num ids hid, eiv, i32_id x hr, eid]
+              simp [eventEff, optEff]
+            · exact absurd h (by simp)
+          rw [if_neg hE] at h
+          by_cases hS : k = asc "Speed"
+          · rw [if_pos hS] at h
+            split at h
+            · rename_i hr
+              simp only [LineClass.grammar.injEq] at h
+              subst hS
+              rw [hl, D_some o _ _ (by rw [decLine_value o ids eo _ v hid heo (Or.inr (Or.inl rfl)) hne hall, decEvent_speed]),
+                eff_events, ← h, u32_num ids hid, eiv, i32_id x hr, eid]
+              simp [eventEff, optEff]
+            · exact absurd h (by simp)
+          rw [if_neg hS] at h
+          have hnat : ∀ (hc : 0 ≤ x ∧ v.head? ≠ some 45), (u32 (intval v) : Int) = x := by
+            intro hc
+            rcases readInt_some v x hri with ⟨d, e, _, _⟩ | ⟨hv, _, ex⟩
+            · subst e; exact absurd rfl hc.2
+            · rw [u32_num v hv, ex]
+          by_cases hA : k = asc "Abs"
+          · rw [if_pos hA] at h
+            split at h
+            · rename_i hc
+              simp only [LineClass.grammar.injEq] at h
+              subst hA
+              rw [hl, D_some o _ _ (by rw [decLine_value o ids eo _ v hid heo (Or.inr (Or.inr (Or.inl rfl))) hne hall, decEvent_abs]),
+                eff_events, ← h, u32_num ids hid, eid]
+              simp [eventEff, optEff, hnat hc]
+            · exact absurd h (by simp)
+          rw [if_neg hA] at h
+          by_cases hR : k = asc "Raw"
+          · rw [if_pos hR] at h
+            split at h
+            · rename_i hc
+              simp only [LineClass.grammar.injEq] at h
+              subst hR
+              rw [hl, D_some o _ _ (by rw [decLine_value o ids eo _ v hid heo (Or.inr (Or.inr (Or.inr rfl))) hne hall, decEvent_raw]),
+                eff_events, ← h, u32_num ids hid, eid]
+              simp [eventEff, optEff, hnat hc]
+            · exact absurd h (by simp)
+          rw [if_neg hR] at h
+          exact absurd h (by simp)
       · exact absurd h (by simp)
-      · rename_i hnone
-        have heo' : eo = none := by
-          cases eo with
-          | none => rfl
-          | some x => simp [eedge] at hnone
-        subst heo'
-        simp only [edgeText, List.append_nil]
-        split at h
-        · rename_i k v hs2
-          obtain ⟨e2, _, _⟩ := splitOn_eq_two 58 rhs k v hs2
-          subst e2
-          cases hri : readInt v with
-          | none => rw [hri] at h; simp at h
-          | some x =>
-            rw [hri] at h
-            simp only [] at h
-            obtain ⟨eiv, hne, hall⟩ := intval_readInt v x hri
-            by_cases hE : k = asc "Enc"
-            · rw [if_pos hE] at h
-              split at h
-              · rename_i hr
-                simp only [LineClass.grammar.injEq] at h
-                subst hE
-                rw [hl, D_some o _ _ (by rw [decLine_value o ids _ v hid (Or.inl rfl) hne hall, decEvent_enc]),
-                  eff_events, ← h, u32_num ids hid, eiv, i32_id x hr, eid]
-                simp [eventEff, optEff]
-              · exact absurd h (by simp)
-            rw [if_neg hE] at h
-            by_cases hS : k = asc "Speed"
-            · rw [if_pos hS] at h
-              split at h
-              · rename_i hr
-                simp only [LineClass.grammar.injEq] at h
-                subst hS
-                rw [hl, D_some o _ _ (by rw [decLine_value o ids _ v hid (Or.inr (Or.inl rfl)) hne hall, decEvent_speed]),
-                  eff_events, ← h, u32_num ids hid, eiv, i32_id x hr, eid]
-                simp [eventEff, optEff]
-              · exact absurd h (by simp)
-            rw [if_neg hS] at h
-            have hnat : ∀ (hc : 0 ≤ x ∧ v.head? ≠ some 45), (u32 (intval v) : Int) = x := by
-              intro hc
-              rcases readInt_some v x hri with ⟨d, e, _, _⟩ | ⟨hv, _, ex⟩
-              · subst e; exact absurd rfl hc.2
-              · rw [u32_num v hv, ex]
-            by_cases hA : k = asc "Abs"
-            · rw [if_pos hA] at h
-              split at h
-              · rename_i hc
-                simp only [LineClass.grammar.injEq] at h
-                subst hA
-                rw [hl, D_some o _ _ (by rw [decLine_value o ids _ v hid (Or.inr (Or.inr (Or.inl rfl))) hne hall, decEvent_abs]),
-                  eff_events, ← h, u32_num ids hid, eid]
-                simp [eventEff, optEff, hnat hc]
-              · exact absurd h (by simp)
-            rw [if_neg hA] at h
-            by_cases hR : k = asc "Raw"
-            · rw [if_pos hR] at h
-              split at h
-              · rename_i hc
-                simp only [LineClass.grammar.injEq] at h
-                subst hR
-                rw [hl, D_some o _ _ (by rw [decLine_value o ids _ v hid (Or.inr (Or.inr (Or.inr rfl))) hne hall, decEvent_raw]),
-                  eff_events, ← h, u32_num ids hid, eid]
-                simp [eventEff, optEff, hnat hc]
-              · exact absurd h (by simp)
-            rw [if_neg hR] at h
-            exact absurd h (by simp)
-        · exact absurd h (by simp)
   · exact absurd h (by simp)
 
 /-! ### SysStat: the sliding scan on a well-formed line = one assignment per pair -/
